@@ -232,3 +232,16 @@ let () =
       x ^ " " ^ x
     | _ -> "BADCASE")
 (* <<< a_c08 *)
+
+(* >>> s_c08 (wave 6): size ladders.  A sink that takes short writes receives the same bytes (write_all contract: the
+   sink is outside the model); a buffer recycled through into_parts starts every reader from the same model state *)
+let () =
+  register "bl.writechunk" (function [ts; _sizes; _vec] ->
+      let toks = if ts = "-" then [] else L.map parse_tok (S.split_on_char ' ' ts) in
+      hex_of_bytes (L.concat (L.map BinPrim.write_token toks)) | _ -> "BADCASE");
+  register "bl.reuse" (function [h; cap; sch; rounds] ->
+      let c = int_of_string cap and r = int_of_string rounds in
+      if r <= 0 then Printf.sprintf "- same=0/0 buf=%d" c
+      else show_run (BinReader.run_stream (nat_of_int c) (parse_sched sch) (bytes_of_hex h)) ^ Printf.sprintf " same=%d/%d buf=%d" (r - 1) (r - 1) c
+    | _ -> "BADCASE")
+(* <<< s_c08 *)
